@@ -519,6 +519,14 @@ class Emitter:
         nm = d['name']
         t = d['type']
         if d.get('storageClass') == 'static' and not (self.f.get('allow_static_local') or re.match(r'^const\b', self.tstr(d['type']))):
+            # a mutable function-local static of scalar type with a literal initialiser is the same thing in C
+            u = self.kids(d)[0] if self.kids(d) else None
+            while u is not None and u.get('kind') in ('ImplicitCastExpr', 'ExprWithCleanups', 'ConstantExpr') and self.kids(u):
+                u = self.kids(u)[0]
+            if u is not None and u.get('kind') == 'IntegerLiteral' and not self.is_struct_type(t) and not self.is_ref(t):
+                self.locals[nm] = t
+                self.rules['static_scalar_local'] += 1
+                return ['static %s = %s;' % (self.decl(t, nm), self.expr(self.kids(d)[0]))]
             raise Unsupported('static local ' + nm)
         if d.get('storageClass') == 'static':
             self.rules['static_const_local_as_local'] += 1
@@ -735,9 +743,43 @@ class Emitter:
 
     def rangefor(self, n):
         h = self.f.get('rangefor_handler')
-        if not h:
-            raise Unsupported('range-for')
-        return h(self, n)
+        if h:
+            return h(self, n)
+        # generic lowering: clang spells a range-based for as  { init; auto&& __range = R; auto __begin = begin-expr; auto __end = end-expr;
+        # for (; __begin != __end; ++__begin) { decl = *__begin; body } }  -- emit exactly those implicit statements through the ordinary rules
+        ks = n.get('inner', [])
+        if len(ks) != 8:
+            raise Unsupported('range-for with %d children' % len(ks))
+        init, rng, beg, end, cond, inc, var, body = ks
+        no = self.loop_no
+        self.loop_no += 1
+        out = []
+        for d in (init, rng, beg, end):
+            if d and d.get('kind'):
+                out += self.stmt(d)
+        self.nohoist += 1
+        c = self.expr(cond)
+        i = self.expr(inc, stmt=True)
+        self.nohoist -= 1
+        gi = self.ghost('loop%d.inc' % no)
+        if gi:
+            i = (i + ', ' if i else '') + gi
+        out.append('for (; %s; %s)' % (c, i))
+        out += self.loop_contract(no)
+        saved = getattr(self, 'cur_loop', None)
+        self.cur_loop = no
+        gb = self.ghost('loop%d.begin' % no)
+        ge = self.ghost('loop%d.end' % no)
+        inner = ['  ' + l for l in self.stmt(var)]
+        for st in (self.kids(body) if body['kind'] == 'CompoundStmt' else [body]):
+            inner += ['  ' + l for l in self.stmt(st)]
+        self.cur_loop = saved
+        out += ['{'] + (['  ' + gb] if gb else []) + inner + (['  ' + ge] if ge else []) + ['}']
+        ga = self.ghost('loop%d.after' % no)
+        if ga:
+            out.append(ga)
+        self.rules['range_for_to_iterator_loop'] += 1
+        return ['{'] + ['  ' + l for l in out] + ['}']
 
     # ------------------------------------------------------------------ expressions
     def hoist(self, decl_line, *more):
@@ -1249,6 +1291,24 @@ class Emitter:
         r = callee['referencedDecl']
         sig = r['type']['qualType']
         nm = r['name']
+        if args and nm in ('operator==', 'operator!=', 'operator++', 'operator--', 'operator*', 'operator->'):
+            # iterator classes the spec maps to a plain C pointer (type_map target ends in '*'): the built-in pointer operators
+            try:
+                ptr_iter = self._decl(self.class_of(args[0]['type']), '').rstrip().endswith('*')
+            except Unsupported:
+                ptr_iter = False
+            if ptr_iter:
+                self.rules['pointer_iterator_operator'] += 1
+                op = nm[len('operator'):]
+                lhs = self.expr(args[0])
+                if op in ('==', '!='):
+                    return '(%s %s %s)' % (lhs, op, self.expr(args[1]))
+                if op in ('++', '--'):
+                    return '(%s%s)' % (lhs, op) if len(args) > 1 else '(%s%s)' % (op, lhs)
+                if op == '*' and len(args) == 1:
+                    return '(*%s)' % lhs
+                if op == '->':
+                    return lhs
         if r['kind'] == 'CXXMethodDecl':
             cls = self.class_of(args[0]['type'])
             key = cls + '::' + nm
